@@ -503,14 +503,75 @@ fn is_transparent(f: &str) -> bool {
     f.ends_with(":SHORT") || f.ends_with(":EINTR")
 }
 
-fn created_something(events: &[String]) -> Option<String> {
+/// Did the step open one of the scenario's own artefacts (a path given with -o / -p) for writing?
+/// Other files under the scratch directory - a history log or a lock file under $HOME, a cache -
+/// are not "something computed" and are none of this oracle's business.
+fn created_something(events: &[String], artefacts: &[&String]) -> Option<String> {
     for l in events {
         let b = ev_body(l);
         if b.starts_with("open#") && (b.contains("+creat") || b.contains("+trunc") || b.contains("flags=w")) {
-            return Some(b.to_string());
+            let path = b.split_whitespace().nth(1).unwrap_or("");
+            if artefacts.iter().any(|a| a.as_str() == path) {
+                return Some(b.to_string());
+            }
         }
     }
     None
+}
+
+/// For the order- and text-sensitive record (digest, replay comparison): paths that are not
+/// artefacts of the scenario (temporary files, caches, logs - their names may contain a pid or a
+/// random suffix, and what is written to them may contain the scratch path) are replaced by a fixed
+/// token, and transfers on their descriptors lose their byte counts.
+fn mask_stray(events: &[String], artefacts: &[&String]) -> Vec<String> {
+    let mut stray_fds: Vec<String> = Vec::new();
+    let mut out = Vec::with_capacity(events.len());
+    for l in events {
+        let line = ev_body(l);
+        let mut toks: Vec<String> = line.split(' ').map(|t| t.to_string()).collect();
+        let head = toks.first().cloned().unwrap_or_default();
+        if head.starts_with("open#") {
+            let path = toks.get(1).cloned().unwrap_or_default();
+            let stray = !artefacts.iter().any(|a| a.as_str() == path.as_str());
+            if stray {
+                toks[1] = "<stray>".to_string();
+                if let Some(fd) = toks.last().filter(|t| t.starts_with("fd")) {
+                    stray_fds.push(fd.clone());
+                }
+            }
+            out.push(toks.join(" "));
+        } else if head.starts_with("meta#") {
+            for t in toks.iter_mut().skip(2) {
+                if t == "->" || t == "ok" || t == "CRASH" || t.starts_with("fd") || (t.starts_with('E') && t.len() <= 7 && t.chars().all(|c| c.is_ascii_uppercase())) {
+                    continue;
+                }
+                if !artefacts.iter().any(|a| a.as_str() == t.as_str()) {
+                    *t = "<stray>".to_string();
+                }
+            }
+            out.push(toks.join(" "));
+        } else if head.starts_with("write#") || head.starts_with("read#") {
+            let fd = toks.get(1).cloned().unwrap_or_default();
+            if stray_fds.contains(&fd) {
+                let res = toks.last().cloned().unwrap_or_default();
+                let res = if res.parse::<i64>().is_ok() { "n".to_string() } else { res };
+                out.push(format!("{} <stray> -> {}", head.split('#').next().unwrap_or(""), res));
+            } else {
+                out.push(line.to_string());
+            }
+        } else if head == "close" {
+            let fd = toks.get(1).cloned().unwrap_or_default();
+            if let Some(pos) = stray_fds.iter().position(|f| *f == fd) {
+                stray_fds.remove(pos);
+                out.push("close <stray>".to_string());
+            } else {
+                out.push(line.to_string());
+            }
+        } else {
+            out.push(line.to_string());
+        }
+    }
+    out
 }
 
 /// The calendar day the library calls "today" (`DateRange::default()`, i.e. chrono's local date)
@@ -779,22 +840,22 @@ pub fn run_pass(ctx: &Ctx, sc: &Scenario, inject: bool) -> PassResult {
         }
         let child = run_child(ctx, &wdir, &argv, &step, k);
         let after = read_dir_files(&wdir);
+        // the scenario's own artefacts: names passed as -p / -o / -i by some step
+        let artefacts: Vec<&String> = sc.steps.iter().flat_map(|s| [s.save_params.as_ref(), s.output.as_ref(), s.input.as_ref()]).flatten().collect();
         rec.exit = child.exit;
         rec.signal = child.signal;
         rec.timed_out = child.timed_out;
         rec.threads = child.events.iter().filter(|l| l.contains("pthread_create")).count() as u32;
         // a step that created threads is not under this simulator's schedule control: its threads
         // draw hash seeds concurrently, so those lines are excluded from the (order-sensitive) record
-        rec.events = child
-            .events
-            .iter()
-            .map(|l| ev_body(l).to_string())
+        rec.events = mask_stray(&child.events, &artefacts)
+            .into_iter()
             .filter(|l| rec.threads == 0 || !(l.starts_with("getrandom") || l.starts_with("pthread_create")))
             .collect();
         rec.fired = fired_faults(&child.events);
         rec.stdout_len = child.stdout.len();
         rec.stdout_hash = format!("{:016x}", fnv1a(&child.stdout));
-        rec.files_after = after.iter().map(|(n, b)| (n.clone(), format!("{}:{:016x}", b.len(), fnv1a(b)))).collect();
+        rec.files_after = after.iter().filter(|(n, _)| artefacts.contains(n)).map(|(n, b)| (n.clone(), format!("{}:{:016x}", b.len(), fnv1a(b)))).collect();
         rec.ops = summarise_ops(&child.events, &step);
         res.probes.steps += 1;
         if rec.threads > 0 {
@@ -849,7 +910,6 @@ pub fn run_pass(ctx: &Ctx, sc: &Scenario, inject: bool) -> PassResult {
         }
         // only the scenario's own artefacts (names passed as -p / -o / -i by some step) are protected;
         // stray files (a temporary file left by a crashed atomic save) are nobody's promise
-        let artefacts: Vec<&String> = sc.steps.iter().flat_map(|s| [s.save_params.as_ref(), s.output.as_ref(), s.input.as_ref()]).flatten().collect();
         for (name, b) in &before {
             if may_touch.contains(name) || !artefacts.contains(&name) {
                 continue;
@@ -888,7 +948,7 @@ pub fn run_pass(ctx: &Ctx, sc: &Scenario, inject: bool) -> PassResult {
                 if stdout_shows_results(&child.stdout) {
                     viol!("O4-not-rejected", format!("{what}: prayer-time entries on stdout ({} bytes)", child.stdout.len()));
                 }
-                if let Some(ev) = created_something(&child.events) {
+                if let Some(ev) = created_something(&child.events, &artefacts) {
                     viol!("O4-not-rejected", format!("{what}: a file was opened for writing before the rejection ({ev})"));
                 }
                 res.steps.push(rec);
